@@ -238,6 +238,14 @@ def c03(res, st, std_coq, lexer_correspondence):
         for e in ("ParseExpr", "ParseStatement", "ParseType", "ParseQuery"):
             cases.append((e, dd))
     cases += [(e, s) for s in gens.regression("C03") for e in ("ParseStatement", "ParseStatements", "ParseExpr")]
+    # every truncation / deletion / error injection of the base sentences (unclosed nested sub-query openers, dangling clauses ...)
+    cases += gens.injection_cases(rnd, q)
+    for opener in (b"((SELECT 1", b"(((SELECT 1 FROM t", b"x IN ((SELECT 1 UNION ALL SELECT 2", b"SELECT * FROM ((SELECT 1 AS x", b"[((SELECT", b"f(((SELECT 1)"):
+        for e in ("ParseExpr", "ParseQuery", "ParseStatement", "ParseStatements", "ParseDML", "ParseDDL"):
+            cases.append((e, opener))
+            cases.append((e, b"SELECT " + opener))
+            cases.append((e, b"DELETE FROM t WHERE a = " + opener))
+            cases.append((e, b"CREATE VIEW v SQL SECURITY INVOKER AS SELECT " + opener))
     report_oracle(res, "C03", cases, "an entry point panics, does not terminate or reports an untyped error")
     res.add_cases(len(cases), len(set(cases)), [gens.case_lines(cases[:1]).strip()[:200], gens.case_lines(cases[-1:]).strip()[:200]])
     # C03_type_parser_terminates is about Parse/TypeModel.v: tie it to ParseType (the extracted model answers, never FUEL, on every input)
@@ -477,6 +485,7 @@ def list_cases(rnd, q):
             out.append(("ParseDDLs", b";\n".join([st] * n)))
         for st in rich_dml:
             out.append(("ParseDMLs", b";\n".join([st] * n) + b";"))
+    out += gens.truncated_piece_lists()
     return out
 
 
